@@ -66,17 +66,26 @@ func inputVars(roots ...*Term) []*Term {
 		}
 		if t.Op == "select" && !t.bound && t.S.Kind <= 1 && t.Args[1].S.Kind == 1 {
 			// read of an input array, possibly through later stores: ask for the INITIAL content at that index
-			base := t.Args[0]
-			for base.Op == "store" {
-				base = base.Args[0]
-			}
-			if base.Op == "var" {
-				bt := Select(base, t.Args[1])
-				if bt.Op == "select" && !seen[-bt.id] {
-					seen[-bt.id] = true
-					out = append(out, bt)
+			var bases func(a *Term, depth int)
+			bases = func(a *Term, depth int) {
+				if depth > 64 {
+					return
+				}
+				switch a.Op {
+				case "store":
+					bases(a.Args[0], depth+1)
+				case "ite":
+					bases(a.Args[1], depth+1)
+					bases(a.Args[2], depth+1)
+				case "var":
+					bt := Select(a, t.Args[1])
+					if bt.Op == "select" && !seen[-bt.id] {
+						seen[-bt.id] = true
+						out = append(out, bt)
+					}
 				}
 			}
+			bases(t.Args[0], 0)
 		}
 		for _, a := range t.Args {
 			walk(a)
@@ -236,7 +245,15 @@ func (c *Checker) batch(obs []Oblig) {
 
 func (c *Checker) single(o Oblig) {
 	vars := inputVars(o.PC, o.Cond)
+	if os.Getenv("SNESVC_DEBUG") != "" {
+		for _, v := range vars {
+			fmt.Fprintf(os.Stderr, "DBG %s var %s op=%s\n", o.Name, termLabel(v), v.Op)
+		}
+	}
 	q := SMTQuery([]*Term{o.PC, Not(o.Cond)}, modelTerms(vars))
+	if d := os.Getenv("SNESVC_DUMP"); d != "" && strings.Contains(o.Name, d) {
+		os.WriteFile("/tmp/dump_"+sanitizeFile(o.Name)+".smt2", []byte(q.Text), 0o644)
+	}
 	r := Solve(q, c.allBackends)
 	res := ObResult{Name: o.Name, Kind: o.Kind, Backend: r.Backend, Seconds: r.Seconds, Tried: r.Tried, Size: len(q.Text)}
 	oo := o
